@@ -441,7 +441,7 @@ func typeArgsString(fn *ir.Function) string {
 }
 
 func keyOf(fn *ir.Function) string {
-	return kindOf(fn) + " " + fn.String() + " [" + typeArgsString(fn) + "] " + types.TypeString(fn.Signature, nil)
+	return kindOf(fn) + " " + fn.String() + " [" + typeArgsString(fn) + "] func" + sigString(fn.Signature)
 }
 
 // expectBody: must a built fn have Blocks?
@@ -489,10 +489,78 @@ func canon(s string) string {
 	})
 }
 
+// sigString renders a signature without parameter names. The names of the parameters of
+// synthetic functions come from Program.canon's representative of the (identical)
+// instantiated signature type, i.e. from whichever identical signature was canonicalised
+// first; they are value names, not IR.
+func sigString(sig *types.Signature) string {
+	var sb strings.Builder
+	if r := sig.Recv(); r != nil {
+		sb.WriteString("(" + types.TypeString(r.Type(), nil) + ") ")
+	}
+	tuple := func(t *types.Tuple, variadic bool) {
+		sb.WriteByte('(')
+		for i := 0; i < t.Len(); i++ {
+			if i > 0 {
+				sb.WriteString(", ")
+			}
+			ts := types.TypeString(t.At(i).Type(), nil)
+			if variadic && i == t.Len()-1 {
+				ts = "..." + strings.TrimPrefix(ts, "[]")
+			}
+			sb.WriteString(ts)
+		}
+		sb.WriteByte(')')
+	}
+	if tp := sig.TypeParams(); tp != nil && tp.Len() > 0 {
+		sb.WriteByte('[')
+		for i := 0; i < tp.Len(); i++ {
+			if i > 0 {
+				sb.WriteString(", ")
+			}
+			sb.WriteString(tp.At(i).String() + " " + types.TypeString(tp.At(i).Constraint(), nil))
+		}
+		sb.WriteByte(']')
+	}
+	tuple(sig.Params(), sig.Variadic())
+	if sig.Results().Len() > 0 {
+		sb.WriteByte(' ')
+		tuple(sig.Results(), false)
+	}
+	return sb.String()
+}
+
 func dumpFn(fn *ir.Function) string {
 	var buf bytes.Buffer
 	ir.WriteFunction(&buf, fn)
-	return canon(buf.String())
+	lines := strings.Split(buf.String(), "\n")
+	var res []*regexp.Regexp
+	switch kindOf(fn) {
+	case "instwrapper", "wrapper", "bound", "thunk", "ondemand", "typesonly":
+		// the parameters of these are made from the signature, not from syntax:
+		// rename them positionally
+		for _, p := range fn.Params {
+			if n := p.Name(); n != "" && n != "_" {
+				res = append(res, regexp.MustCompile(`\b`+regexp.QuoteMeta(n)+`\b`))
+			} else {
+				res = append(res, nil)
+			}
+		}
+	}
+	for i, l := range lines {
+		switch {
+		case strings.HasPrefix(l, "func "):
+			lines[i] = "func " + fn.Name() + " " + sigString(fn.Signature) + ":"
+		case strings.HasPrefix(l, "        "):
+			for j, re := range res {
+				if re != nil {
+					l = re.ReplaceAllString(l, "param"+strconv.Itoa(j))
+				}
+			}
+			lines[i] = l
+		}
+	}
+	return canon(strings.Join(lines, "\n"))
 }
 
 type dump struct {
